@@ -7,7 +7,7 @@ EXTENDS FzfBind, Json
 
 CONSTANTS MaxArg, MaxSeq
 
-ArgAlpha == {"a", "+", ",", ":", ")", "(", " "}
+ArgAlpha == {"a", "+", ",", ":", ")", "(", " ", "é"}    \* é: a two-byte character (offsets are bytes in the code, characters here)
 Forms == DelimOpen \cup {":"}
 NCtx == 16
 
